@@ -1169,11 +1169,11 @@ func (x *Explorer) render(sb *strings.Builder, e ast.Expr) bool {
 			if def := x.inlineDef(o); def != nil {
 				return x.render(sb, def)
 			}
-			sb.WriteString(e.Name)
+			sb.WriteString(RoleName(e))
 			fmt.Fprintf(sb, "·%d", int(o.Pos()-x.Fn.Pos()))
 			return true
 		}
-		sb.WriteString(e.Name)
+		sb.WriteString(RoleName(e))
 		return true
 	case *ast.BasicLit:
 		sb.WriteString(e.Value)
